@@ -5,6 +5,7 @@ import (
 	"encoding/binary"
 	"fmt"
 	"io"
+	"math"
 	"os"
 	"path/filepath"
 	"testing/iotest"
@@ -130,7 +131,21 @@ func refDecode(b []byte, le bool, width int, signed bool) uint64 {
 	return v
 }
 
+// doWrite performs one typed write. Byte-string arguments are handed over in a scratch
+// slice that the caller overwrites right after the call, as a caller reusing its buffer
+// (or io.Copy) would: the writer must have copied them.
 func doWrite(w *parse.BinaryWriter, op wrOp) {
+	var scratch []byte
+	if op.b != nil {
+		scratch = append(make([]byte, 0, len(op.b)+2), op.b...)
+		defer func() {
+			for i := range scratch {
+				scratch[i] ^= 0xFF
+			}
+			_ = append(scratch, 0xEE, 0xEE)
+		}()
+	}
+	op.b = scratch
 	switch op.kind {
 	case kU8:
 		w.WriteUint8(uint8(op.val))
@@ -211,7 +226,10 @@ const (
 var beNames = [...]string{"memory", "reader-with-Bytes", "ReadSeeker(size)", "ReadSeeker(size<0)", "ReaderAt", "Reader(ReadAll)", "Reader(stream)", "File", "FilePath", "MmapPath", "MmapFile"}
 
 func beSimulated(b int) bool { return b >= beSeeker && b <= beStream }
-func beSeekable(b int) bool  { return b != beStream }
+func beMemoryLike(b int) bool {
+	return b == beMem || b == beBytesReader || b == beReadAll || b == beMmapPath || b == beMmapFile
+}
+func beSeekable(b int) bool { return b != beStream }
 
 type c19 struct {
 	ctx     *core.Ctx
@@ -364,7 +382,7 @@ func (m *c19) doReadBytes(b *brModel, n int64, asString bool) *core.Violation {
 		got = b.r.ReadBytes(n)
 	}
 	m.ctx.L.EvB(name, got)
-	if !b.eof && b.pos+n <= m.size {
+	if !b.eof && n <= m.size-b.pos {
 		if !eq(got, m.data[b.pos:b.pos+n]) {
 			return m.viol("bytes-wrong", "%s(%d) at %d = %q, want %q", name, n, b.pos, clip(got), clip(m.data[b.pos:b.pos+n]))
 		}
@@ -685,6 +703,13 @@ func RunC19(ctx *core.Ctx) *core.Violation {
 						n = 0
 					}
 				}
+				if t.Chance(1, 12) && beMemoryLike(m.be) {
+					// a length far beyond the data (e.g. a corrupt length prefix): the memory-like
+					// backends clamp to the data; the reader-backed ones allocate n bytes by design,
+					// so this is generated only here
+					n = []int64{math.MaxInt64, math.MaxInt64 - cur.pos, 1 << 62, math.MaxInt64 - cur.pos/2}[t.Draw(4)]
+					ctx.Count("probe_huge_readbytes")
+				}
 				v = m.doReadBytes(cur, n, t.Chance(1, 3))
 			case 2:
 				v = m.doReadByte(cur)
@@ -828,6 +853,15 @@ func runC19Bitmap(ctx *core.Ctx) *core.Violation {
 		// written bits come back in order
 		n := t.Draw(70)
 		var pre []byte
+		if t.Chance(1, 3) {
+			// a recycled buffer: length 0, spare capacity full of old content
+			dirty := genData(t, 1+t.Draw(12), 2)
+			for i := range dirty {
+				dirty[i] |= 0x81
+			}
+			pre = dirty[:0]
+			ctx.Count("probe_bitmap_recycled_buffer")
+		}
 		w := parse.NewBitmapWriter(pre)
 		bits := make([]bool, n)
 		for i := range bits {
